@@ -39,6 +39,10 @@ def mul (a b : Limbs) : Limbs := run Gen.Fe448.mul (zero8 ++ a ++ b)
 def square (a : Limbs) : Limbs := run Gen.Fe448.square (zero8 ++ a)
 def mul32 (x : Limbs) (y : Int) : Limbs := run Gen.Fe448.mul32 (zero8 ++ x ++ [y])
 def setBytes (x : List Int) : Limbs := run Gen.Fe448.setBytes (zero8 ++ x)
-def bytes (v : Limbs) : List Int := run Gen.Fe448.bytes (v ++ List.replicate 56 0)
+/-- `Bytes`: the whole Go function as one program (used by the translator check) -/
+def bytesFull (v : Limbs) : List Int := run Gen.Fe448.bytes (v ++ List.replicate 56 0)
+/-- `Bytes` as the composition the Go code performs: `reduce`, then byte extraction
+    (the translator cuts the function after the call of `reduce`) -/
+def bytes (v : Limbs) : List Int := run Gen.Fe448.bytesTail (List.replicate 64 0 ++ reduce v)
 
 end Model.Fe448
